@@ -5,6 +5,13 @@ from ..interp_prop import InterpProp, ev_delay
 
 class C05(InterpProp):
     id = 'C05'
+    # observables compared with the model (see InterpProp.normalize)
+    cmp_eff = ('meta',)
+    cmp_meta = ('event consumed', 'event sent', 'delayed event sent')
+    cmp_step = ('event', 'sent')
+    cmp_slot = ('time',)
+    cmp_callbacks = False
+    cmp_err = 'class'
     quick_cases = 800
     thorough_cases = 30000
     n_ops = 60
